@@ -1,9 +1,9 @@
 package checks
 
 import (
-	"encoding/binary"
 	"bytes"
 	"crypto/sha256"
+	"encoding/binary"
 	"encoding/json"
 	"fmt"
 	"io"
